@@ -8,6 +8,9 @@ from .sorts import V, Ref, Const, Py, box, unbox
 from . import arith, models
 
 
+SP_IDENT = {"float_bits": ("float", "int"), "float_from_bits": ("int", "float")}
+
+
 def _U(msg):
     from .engine import Unsupported
     return Unsupported(msg)
@@ -63,6 +66,12 @@ def dispatch(ex, st, f, args, kwargs, node):
         if kwargs:
             raise _U("spec kwargs")
         yield st, f.val.apply(args)
+    elif k == "specident":
+        a = ex.narrow(st, args[0])
+        src, dst = SP_IDENT[f.val]
+        if a.ty == "py":
+            a = S.unbox(a.t, src)
+        yield st, V(dst, a.t)
     elif k == "pyfn":
         # helper usable only inside contract clauses
         yield from clause_helper(ex, st, f.val, args, kwargs, node)
